@@ -189,7 +189,7 @@ pub fn run(seed: u64, count: usize, outdir: &str) -> std::io::Result<i32> {
                 if out_bad * 2 > out_ok + out_bad && m.triangles.len() >= 200 { bad.push(format!("kind=inward-winding backend={name} {out_bad} of {} triangles face inward", out_ok + out_bad)); }
             }
             if std::env::var("FV_DEBUG").is_ok() { eprintln!("case {ci} {name} depth {depth} tris {} vol {:.4} sampled {:.4} area {:.3} det {:.3}", m.triangles.len(), rep.vol, vol_sampled, rep.area, det); }
-            if name == "vm" { write!(il, "manifold {} | volsign {}", rep.problems.iter().all(|p| p.starts_with("kind=non-finite")) as u8, if rep.vol > 0.0 { 1 } else if rep.vol < 0.0 { -1 } else { 0 }).unwrap(); }
+            if name == "vm" { write!(il, "manifold {} | volsign {}", rep.problems.iter().all(|p| p.starts_with("kind=non-finite")) as u8, if rep.vol > 1e-6 { 1 } else if rep.vol < -1e-6 { -1 } else { 0 }).unwrap(); }
             if name == "vm" {
                 // the mesh for the verified checker: vertex bit patterns and triangles
                 write!(wire, "c08 {} {}", m.vertices.len(), m.triangles.len()).unwrap();
